@@ -60,16 +60,23 @@ impl BracketAtom {
 }
 
 /// Converts the last three items into a range if applicable.
-fn make_range(items: &mut Vec<BracketItem>) {
-    use BracketAtom::*;
+///
+/// `hyphen` is the index of the item that is an unquoted hyphen following an
+/// atom, which is the only item that can be a range operator. It is cleared
+/// when a range is made or the hyphen turns out not to be an operator.
+fn make_range(items: &mut Vec<BracketItem>, hyphen: &mut Option<usize>) {
     use BracketItem::*;
+
+    let Some(hyphen_index) = *hyphen else { return };
+    if hyphen_index + 2 != items.len() {
+        return;
+    }
+    *hyphen = None;
 
     if let Some(i1) = items.pop() {
         if let Atom(end) = i1 {
             if let Some(i2) = items.pop() {
-                if let Atom(Char('-')) = i2
-                    && let Some(i3) = items.pop()
-                {
+                if let Some(i3) = items.pop() {
                     if let Atom(start) = i3 {
                         items.push(Range(start..=end));
                         return;
@@ -102,7 +109,15 @@ impl Bracket {
             complement: false,
             items: Vec::new(),
         };
+        // Index of the last item that may be a range operator
+        let mut hyphen = None;
         while let Some(pc) = i.next() {
+            // Only an unquoted hyphen that follows an atom and is not the end
+            // of a range can be a range operator.
+            let new_hyphen = (pc == PatternChar::Normal('-')
+                && hyphen.is_none()
+                && matches!(bracket.items.last(), Some(Atom(_))))
+            .then_some(bracket.items.len());
             match pc {
                 PatternChar::Normal(']') if !bracket.items.is_empty() => return Some((bracket, i)),
                 PatternChar::Normal('!' | '^')
@@ -120,7 +135,10 @@ impl Bracket {
                 }
                 c => bracket.items.push(Atom(Char(c.char_value()))),
             }
-            make_range(&mut bracket.items);
+            make_range(&mut bracket.items, &mut hyphen);
+            if new_hyphen.is_some_and(|index| index + 1 == bracket.items.len()) {
+                hyphen = new_hyphen;
+            }
         }
         None
     }
